@@ -1,0 +1,51 @@
+//go:build verif
+
+package p9p
+
+// Verification hooks (build tag "verif" only; add-only, no behaviour change).
+// They expose internal state to the checks under /verif.
+
+// VerifFid describes one entry of an SFileSys session's fid table.
+type VerifFid struct {
+	Fid    Fid
+	Bound  bool // Ent != nil
+	Open   bool // File != nil
+	Mode   Flag
+	Locked bool // the SFid's mutex was held at the time of the call
+}
+
+// VerifFidTable reports the fid table of a session created by SFileSys.
+// It returns nil, false for any other Session.
+func VerifFidTable(s Session) ([]VerifFid, bool) {
+	sess, ok := s.(*session)
+	if !ok {
+		return nil, false
+	}
+	var out []VerifFid
+	sess.refs.Range(func(k, v interface{}) bool {
+		fid, _ := k.(Fid)
+		ref, _ := v.(*SFid)
+		e := VerifFid{Fid: fid}
+		if ref.TryLock() {
+			e.Bound = ref.Ent != nil
+			e.Open = ref.File != nil
+			e.Mode = ref.Mode
+			ref.Unlock()
+		} else {
+			e.Locked = true
+		}
+		out = append(out, e)
+		return true
+	})
+	return out, true
+}
+
+// VerifAllocateTag runs the client's tag allocator on a pool in which exactly
+// the tags in used are taken.
+func VerifAllocateTag(used []Tag, hint Tag) (Tag, error) {
+	m := make(map[Tag]*fcallRequest, len(used))
+	for _, t := range used {
+		m[t] = nil
+	}
+	return allocateTag(nil, m, hint)
+}
